@@ -58,7 +58,27 @@ func c04Prop(rec *ev.Recorder) func(t *rapid.T) {
 	return func(t *rapid.T) {
 		var stmts []string
 		nt := false
-		if rapid.IntRange(0, 4).Draw(t, "source") == 0 {
+		src := rapid.IntRange(0, 5).Draw(t, "source")
+		if src == 5 {
+			// a function's own variables start out absent at every call depth, whatever finished calls left
+			// in the memory its frame lands on: conditionally assigned locals, called below recursions of
+			// different frame widths, after other call chains have run to about the same depth
+			pad, args := "", ""
+			for i := rapid.IntRange(0, 5).Draw(t, "pad"); i > 0; i-- {
+				pad += ", " + letters("zp", i)
+				args += ", " + fmt.Sprint(i)
+			}
+			n := rapid.SampledFrom([]int{70, 140, 200}).Draw(t, "depths")
+			// (the leaf pushes nothing beyond its frame: what lies there is what earlier, shallower calls left)
+			stmts = []string{
+				"leaf = (n) -> {\nif n > 99 la = 0\nlb = 7\nif n > 99 lc = 0\nld = 8\nif n > 99 le = 0\nlf = 9\nif n == 0 return la\nif n == 1 return lc\nle\n}",
+				"walk = (d, n" + pad + ") -> if d <= 0 leaf(n) else walk(d - 1, n" + pad + ")",
+			}
+			for k := 0; k < 3; k++ {
+				stmts = append(stmts, fmt.Sprintf("{\nzr = []\nfor zd <- fromto(0, %d) zr = zr + [walk(zd, %d%s)]\nzr\n}", n, k, args))
+			}
+			nt = true
+		} else if src == 0 {
 			g := &gen.G{T: t}
 			stmts = g.Session()
 			nt = strings.Contains(joinStmts(stmts), "->")
